@@ -270,7 +270,9 @@ func c12R2(p *core.Prog, r *core.Report) {
 	}
 	for _, f := range sortedFuncs(scope) {
 		fn := p.FuncName(f)
-		for _, c := range core.CallsTo(f, func(cal *types.Func) bool { return cal.Pkg() != nil && cal.Pkg().Path() == modPath("internal/reghttp") && canonObj(cal) == "getHost" }) {
+		for _, c := range core.CallsTo(f, func(cal *types.Func) bool {
+			return cal.Pkg() != nil && cal.Pkg().Path() == modPath("internal/reghttp") && canonObj(cal) == "getHost"
+		}) {
 			arg := core.CallArg(c, 1)
 			os := core.Origins(arg, core.SliceOpts{})
 			own := core.AllOrigins(os, func(o core.Origin) bool { return o.Kind == core.OField && o.Field == "Host" })
